@@ -470,16 +470,15 @@ def relation(pkt, earlier):
     return ""
 
 
-def kinship(pkt, passed, fed):
-    """'<relation> of passed|refused': the closest earlier packet, one with the other outcome preferred."""
-    best = None
+def kinship(pkt, fed):
+    """'<relation> of passed, <relation> of refused': the closest earlier packet of either outcome ('fresh' = none)."""
+    order = ["same", "twin", "tail", "len", "head"]
+    best = {}
     for old, old_passed in fed:
         rel = relation(pkt, old)
-        if rel:
-            rank = (old_passed != passed, -["same", "twin", "tail", "len", "head"].index(rel))
-            if best is None or rank > best[0]:
-                best = (rank, "%s of %s" % (rel, "passed" if old_passed else "refused"))
-    return best[1] if best else "fresh"
+        if rel and (old_passed not in best or order.index(rel) < order.index(best[old_passed])):
+            best[old_passed] = rel
+    return ", ".join("%s of %s" % (best[o], "passed" if o else "refused") for o in (True, False) if o in best) or "fresh"
 
 
 def kin(pkt, rng):
@@ -615,7 +614,7 @@ class TraceRun:
 
     def judge(self, ev, pkt, passed):
         """Label the event with the relation of its packet to the packets this socket judged before."""
-        ev["rel"] = kinship(pkt, passed, self.fed)
+        ev["rel"] = kinship(pkt, self.fed)
         ev["pass"] = bool(passed)
         self.fed.append((pkt, passed))
 
@@ -1090,7 +1089,7 @@ def kin_marks(events):
     """Where a kin of a packet that passed was refused, outbound and inbound (for the negative controls)."""
     marks = {}
     for i, e in enumerate(events, 1):
-        if e.get("rel") == "tail of passed" and e["st"] == "ready" and not e["pass"]:
+        if "tail of passed" in e.get("rel", "") and e["st"] == "ready" and not e["pass"]:
             marks.setdefault("kin_out" if e["k"] == "data" else "kin_in", i)
     return marks if len(marks) == 2 else None
 
@@ -1410,9 +1409,10 @@ def trace_judge(ctx, rec):
             kinds[key] = kinds.get(key, 0) + 1
             ctx.nontrivial(("ev", tuple(t["flags"]), key, tuple(e["p"]["h"][:2]), e["p"]["n"]))
             if e.get("rel") and e["rel"] != "fresh":
-                kk = "%s, %s: %s" % ("datagram from outside" if e["k"] == "out" else "tunnel data", e["rel"],
-                                     "passed" if e["pass"] else "nothing passed")
-                kinstat[kk] = kinstat.get(kk, 0) + 1
+                for part in e["rel"].split(", "):
+                    kk = "%s, %s: %s" % ("datagram from outside" if e["k"] == "out" else "tunnel data", part,
+                                         "passed" if e["pass"] else "nothing passed")
+                    kinstat[kk] = kinstat.get(kk, 0) + 1
                 ctx.nontrivial(("kin", tuple(t["flags"]), e["k"], e["rel"], e["pass"], tuple(e["p"]["h"][:2]),
                                 e["p"]["n"], e["p"]["z"]))
             if e["sit"] and e["sit"] != "fresh" and e["k"] in ("out", "data"):
@@ -1448,7 +1448,7 @@ def trace_judge(ctx, rec):
                 if e.get("seen") == "other":
                     what = "opened-by-foreign-source-after-replayed-signed-message"
             if what in ("inbound", "outbound", "inbound-from-known-address") and \
-                    e.get("rel", "").endswith(" of passed") and not reconfigured_at(tr, l_o):
+                    " of passed" in e.get("rel", "") and not reconfigured_at(tr, l_o):
                 # (on its own the packet is judged right - binding E; what differs here is what went before it)
                 what += "-kin-of-earlier-packet"
         ctx.violation("trace:%s" % what,
